@@ -52,6 +52,11 @@ def evil_upstream(c, a, rec):
         'binary.test': bytes(range(256)),
         'badframe.test': b'HTTP/1.1 200 OK\r\nSession-Id: 1\r\n\r\n' + b'RPFM\0\0\0\x01\0\x08\0\x02\x09\x06\x01\x02\x03\x04\0\x01ab',
         'shortattr.test': b'HTTP/1.1 200 OK\r\nSession-Id: 1\r\n\r\n' + b'RPFM\0\0\0\x01\0\x03\0\x00\x03\x01a',
+        # reply headers that only make sense as answers to something the connector did not ask for
+        'chan-dgram.test': b'HTTP/1.1 200 OK\r\nSession-Id: 7\r\nProxy-Channel: quic-datagrams\r\n\r\n',
+        'chan-junk.test': b'HTTP/1.1 200 OK\r\nSession-Id: 7\r\nProxy-Channel: \xff\xfe\r\n\r\n',
+        'chan-empty.test': b'HTTP/1.1 200 OK\r\nSession-Id: 7\r\nProxy-Channel:\r\nProxy-Protocol: tcp\r\nUdp-Bind-Address: not-an-address\r\n\r\n',
+        'cl-huge.test': b'HTTP/1.1 200 OK\r\nContent-Length: 18446744073709551615\r\nTransfer-Encoding: chunked\r\n\r\n',
     }
     rep = replies.get(host, b'HTTP/1.1 200 OK\r\n\r\n')
     if host == 'endless-count.test':
@@ -167,7 +172,7 @@ http_inputs = [
     b'CONNECT a:80 HTTP/1.1\r\nProxy-Protocol: udp\r\n\r\n' + b'RPFM\0\0\0\x01\xff\xff\xff\xff',
     b'\xff\xfe\xfd' * 50, b'A' * 70000, b'CONNECT ' + b'a' * 70000 + b':80 HTTP/1.1\r\n\r\n',
 ]
-for host in ('sid-neg.test', 'sid-big.test', 'sid-abc.test', 'emptyhdr.test', 'code.test', 'nothing.test', 'binary.test', 'badframe.test', 'shortattr.test'):
+for host in ('sid-neg.test', 'sid-big.test', 'sid-abc.test', 'emptyhdr.test', 'code.test', 'nothing.test', 'binary.test', 'badframe.test', 'shortattr.test', 'chan-dgram.test', 'chan-junk.test', 'chan-empty.test', 'cl-huge.test'):
     http_inputs.append(f'CONNECT {host}:53 HTTP/1.1\r\nProxy-Protocol: udp\r\n\r\n'.encode() + rpfm_frame(0, '1.2.3.4', 53, b'x'))
     http_inputs.append(f'CONNECT {host}:80 HTTP/1.1\r\n\r\n'.encode())
 socks_inputs = [
